@@ -6,6 +6,7 @@
 //             compiled-grammar text, lexeme list, and the fully materialised lexer automaton of selected lexemes
 //   subsume : C10 — real check_subsume verdicts per (state, slice)
 //   replay  : feed bytes to the real Matcher over the single-byte vocabulary
+//   maskdiff: C10 — sliced vs unsliced mask after a byte prefix, over single bytes + given extra tokens
 use std::collections::HashMap;
 use std::io::{BufRead, Write};
 use std::panic::{catch_unwind, AssertUnwindSafe};
@@ -15,7 +16,8 @@ use llguidance::derivre::StateID;
 use llguidance::earley::lexerspec::{LexemeIdx, LexerSpec};
 use llguidance::earley::regexvec::{LexemeSet, RegexVec};
 use llguidance::earley::SlicedBiasComputer;
-use llguidance::toktrie::{ApproximateTokEnv, InferenceCapabilities, TokEnv};
+use llguidance::toktrie::{ApproximateTokEnv, InferenceCapabilities, TokEnv, TokRxInfo, TokTrie};
+use std::sync::Arc;
 use llguidance::{Logger, Matcher, ParserFactory};
 use serde_json::{json, Value};
 
@@ -208,12 +210,30 @@ fn op_compile(job: &Value) -> Value {
             }
             Ok(mut rv) => {
                 let n = spec.lexemes.len();
-                let sel: Vec<Vec<usize>> = match job["lexeme_sets"].as_array() {
+                let single_all = job["lexeme_sets"].as_str() == Some("single+all");
+                let sel: Vec<Vec<usize>> = if single_all {
+                    // every lexeme alone, then all lexemes of the grammar together (the state sets the parser really uses are subsets of it)
+                    let mut v: Vec<Vec<usize>> = (0..n).map(|i| vec![i]).collect();
+                    if n > 1 {
+                        v.push((0..n).collect());
+                        // and all pairs when there are few lexemes
+                        if n <= 8 {
+                            for a in 0..n {
+                                for b in (a + 1)..n {
+                                    v.push(vec![a, b]);
+                                }
+                            }
+                        }
+                    }
+                    v
+                } else {
+                    match job["lexeme_sets"].as_array() {
                     Some(a) => a
                         .iter()
                         .map(|s| s.as_array().unwrap().iter().map(|x| x.as_u64().unwrap() as usize).collect())
                         .collect(),
                     None => (0..n).map(|i| vec![i]).collect(),
+                    }
                 };
                 let mut autos = vec![];
                 for s in sel {
@@ -314,7 +334,119 @@ fn op_subsume(job: &Value) -> Value {
         lex_autos.push(json!({"lexeme": i, "init": if init.is_dead() {0} else {1}, "n": a.order.len(), "states": states}));
     }
     out["lexeme_automata"] = Value::Array(lex_autos);
+    // joint automata (several lexemes live in one lexer state: the only place where lazy and greedy lexemes meet)
+    if job["joint"].as_bool().unwrap_or(false) {
+        let nn = n - n_extra;
+        let mut sets: Vec<Vec<usize>> = vec![(0..nn).collect()];
+        if nn <= 6 {
+            for i in 0..nn {
+                for j in (i + 1)..nn {
+                    if nn > 2 {
+                        sets.push(vec![i, j]);
+                    }
+                }
+            }
+        }
+        let mut joint = vec![];
+        let lazy_set = rv.lazy_regexes().clone();
+        for ls in sets {
+            let mut set = LexemeSet::new(n);
+            for i in &ls {
+                set.add(LexemeIdx::new(*i));
+            }
+            let init = rv.initial_state(&set);
+            let (a, trans) = match materialise(&mut rv, init, max_states) {
+                Ok(x) => x,
+                Err(e) => {
+                    joint.push(json!({"set": ls, "error": e}));
+                    continue;
+                }
+            };
+            let mut states = vec![];
+            for (k, s) in a.order.iter().enumerate() {
+                if k == 0 {
+                    states.push(json!({"t": [], "acc": false, "possible": false, "verdicts": [], "lazy_acc": false, "lazy_live": false}));
+                    continue;
+                }
+                let possible = rv.subsume_possible(*s);
+                let mut verdicts = vec![];
+                if possible {
+                    for j in 0..n_extra {
+                        let r = catch_unwind(AssertUnwindSafe(|| rv.check_subsume(*s, spec.extra_lexeme(j), budget)));
+                        verdicts.push(match r {
+                            Ok(Ok(b)) => json!(b),
+                            Ok(Err(e)) => json!(format!("err:{e}")),
+                            Err(_) => json!("panic"),
+                        });
+                    }
+                }
+                let desc = rv.state_desc(*s);
+                let acc = desc.greedy_accepting.is_some();
+                let lazy_acc = desc.lazy_accepting.is_some();
+                let lazy_live = desc.possible.iter().any(|i| lazy_set.contains(i));
+                states.push(json!({"t": compress_row(&trans[k]), "acc": acc, "possible": possible, "verdicts": verdicts, "lazy_acc": lazy_acc, "lazy_live": lazy_live}));
+            }
+            joint.push(json!({"set": ls, "init": if init.is_dead() {0} else {1}, "n": a.order.len(), "states": states}));
+        }
+        out["joint_automata"] = Value::Array(joint);
+    }
     out
+}
+
+/// C10 replay: the mask of an engine with slices against the mask of an engine without, after `bytes`, over a vocabulary of all single bytes
+/// plus the given extra tokens
+fn op_maskdiff(job: &Value) -> Value {
+    let mut words: Vec<Vec<u8>> = (0..=255u8).map(|b| vec![b]).collect();
+    for w in job["tokens"].as_array().cloned().unwrap_or_default() {
+        words.push(w.as_array().unwrap().iter().map(|x| x.as_u64().unwrap() as u8).collect());
+    }
+    words.push(b"\xFF<|end|>".to_vec());
+    let nw = words.len() as u32;
+    let trie = TokTrie::from(&TokRxInfo::new(nw, nw - 1), &words);
+    let env: TokEnv = Arc::new(ApproximateTokEnv::new(trie));
+    let slices: Vec<String> = match job["slices"].as_str() {
+        Some("general") => SlicedBiasComputer::general_slices(),
+        Some("json") => SlicedBiasComputer::json_slices(),
+        _ => job["slices"].as_array().map(|a| a.iter().map(|x| x.as_str().unwrap().to_string()).collect()).unwrap_or_default(),
+    };
+    let bytes: Vec<u8> = job["bytes"].as_array().unwrap().iter().map(|x| x.as_u64().unwrap() as u8).collect();
+    let mut masks = vec![];
+    let mut applied = 0;
+    for sl in [slices.clone(), vec![]] {
+        let tl = match top_level(job) {
+            Ok(t) => t,
+            Err(e) => return json!({"ok": false, "error": e}),
+        };
+        let mut factory = match ParserFactory::new(&env, InferenceCapabilities::default(), &sl) {
+            Ok(f) => f,
+            Err(e) => return json!({"ok": false, "error": format!("{e}")}),
+        };
+        factory.quiet();
+        let parser = factory.create_parser_from_init_ext(GrammarInit::Serialized(tl), Logger::new(0, 0), InferenceCapabilities::default(), factory.limits().clone());
+        if let Err(e) = &parser {
+            return json!({"ok": false, "error": format!("{e}"), "stage": "create_parser"});
+        }
+        let mut m = Matcher::new(parser);
+        for b in &bytes {
+            if m.consume_token(*b as u32).is_err() {
+                return json!({"ok": false, "error": "prefix not accepted", "stage": "prefix"});
+            }
+        }
+        match m.compute_mask() {
+            Ok(mask) => masks.push(mask),
+            Err(e) => return json!({"ok": false, "error": format!("{e}"), "stage": "mask"}),
+        }
+        if !sl.is_empty() {
+            applied = m.last_step_stats().map(|s| s.slices_applied).unwrap_or(0);
+        }
+    }
+    let mut diff = vec![];
+    for t in 0..nw {
+        if masks[0].is_allowed(t) != masks[1].is_allowed(t) {
+            diff.push(json!({"token": t, "bytes": words[t as usize], "sliced": masks[0].is_allowed(t), "plain": masks[1].is_allowed(t)}));
+        }
+    }
+    json!({"ok": true, "diff": diff, "slices_applied": applied, "vocab": nw})
 }
 
 fn op_replay(job: &Value) -> Value {
@@ -400,6 +532,7 @@ fn main() {
         let r = catch_unwind(AssertUnwindSafe(|| match op.as_str() {
             "compile" => op_compile(&job),
             "subsume" => op_subsume(&job),
+            "maskdiff" => op_maskdiff(&job),
             "replay" => op_replay(&job),
             _ => json!({"ok": false, "error": "unknown op"}),
         }));
